@@ -10,10 +10,16 @@ def cmdAlias (j : Json) : Except String Json := do
   let removedIdx ← jNatList (← field j "removed")
   let sigma ← jPairList (← field j "sigma")
   let netsArr := b.nets.toArray
-  let removed ← removedIdx.mapM fun i => match netsArr[i]? with
+  let netAt (i : Nat) : Except String Net := match netsArr[i]? with
     | some n => pure n
     | none => throw s!"net index {i} out of range"
-  let c : Cert := ⟨removed, sigma⟩
+  let removed ← removedIdx.mapM netAt
+  let rwJ ← jArr (fieldD j "rewrites" (.arr #[]))
+  let rewrites ← rwJ.toList.mapM fun r => do
+    let o ← netAt (← jNat (← field r "old"))
+    let n' ← parseNet (← field r "new")
+    return (o, n')
+  let c : Cert := ⟨removed, sigma, rewrites⟩
   return Json.mkObj [("ok", .bool true), ("cert_ok", .bool (certOk b c)), ("scheds_ok", .bool (schedsOkB b c)),
     ("nets", .arr ((applyCert b c).nets.map netJson).toArray)]
 
